@@ -6,6 +6,7 @@ import X86Model.Driver.Proto
 import X86Model.Driver.Addr
 import X86Model.Driver.Consts
 import X86Model.Driver.Mapper
+import X86Model.Driver.Recursive
 
 open X86 X86.Driver
 
@@ -13,7 +14,7 @@ open X86 X86.Driver
 structure DState where
   mapper : MState := {}
 
-def statelessHandlers : List Handler := [handleC03, handleC04, handleC05, handleC06, handleC07, handleC19]
+def statelessHandlers : List Handler := [handleC03, handleC04, handleC05, handleC06, handleC07, handleC19, handleC20]
 
 def dispatch : SHandler DState := fun cfg op a impl st =>
   match statelessHandlers.firstM (fun h => h cfg op a impl) with
